@@ -1,10 +1,10 @@
 SPECIFICATION Spec
 CONSTANTS
-  Cons <- BindDeep
+  Cons <- ExprFull
   Terms = {"semi"}
-  MaxE = 0
+  MaxE = 3
   MaxS = 1
-  MaxX = 3
+  MaxX = 2
   MaxP = 0
   MaxL = 0
   MaxTop = 1
